@@ -31,6 +31,8 @@ var targetFile = map[string]string{
 	"idleCheckOk":             "GenHealthIdle",
 	"validateRelayMaxTimeout": "GenTTL",
 	"lazyCallReqTTL":          "GenTTL",
+	// C08
+	"lazyTTL": "GenRelayFwd",
 }
 
 // varFields: constant fields of package-level composite-literal variables.
@@ -164,4 +166,9 @@ var targets = []Target{
 		}},
 	{Func: "lazyCallReq.TTL", Out: "lazyCallReqTTL", Params: "(ttl_field : Z)", Ret: "Z",
 		Hints: map[string]string{"binary.BigEndian.Uint32(f.Payload[_ttlIndex : _ttlIndex+_ttlLen])": "ttl_field"}},
+	// C08 -- relay.go / relay_messages.go: the relay's ttl arithmetic
+	{Func: "validateRelayMaxTimeout", Out: "validateRelayMaxTimeout", Params: "(d : Z)", Ret: "Z",
+		SHints: map[string]string{"logger.WithFields(...": ""}},
+	{Func: "lazyCallReq.TTL", Out: "lazyTTL", Params: "(ttl_ms : Z)", Ret: "Z",
+		SHints: map[string]string{"ttl := binary.BigEndian.Uint32(f.Payload[_ttlIndex : _ttlIndex+_ttlLen])": "let ttl := ttl_ms in"}},
 }
